@@ -36,7 +36,8 @@ CONSTANTS Files, Ads, Mats, APT, MPT, ITY, IPT, Isos,   \* key universes (IPT: i
           AdsUses, MatUses,                        \* [AdsVer -> SUBSET APT], [MatVer -> SUBSET MPT]
           IsoMat, IsoAds, IsoTy,                   \* [Isos -> Mats], [Isos -> Ads], [Isos -> ITY]
           IsoMatVer, IsoAdsVer,                    \* [Isos -> MatVer], [Isos -> AdsVer]
-          IsoClass                                 \* [Isos -> {"plain","coerce","none","list"}]
+          IsoClass,                                \* [Isos -> {"plain","coerce","none","list"}]
+          Traits                                   \* which known deviations the tree under test shows (Impl only)
 
 Absent == "-"
 Auto   == "auto"       \* a property type row created by auto-insert (unit, description NULL)
@@ -201,6 +202,15 @@ PlainEffect(f, o) ==
 (* looking, deletes remove one entry).  Result: [out, f, reg, ret] where   *)
 (* ret is the token transformation applied to retrieved isotherms.         *)
 (***************************************************************************)
+(* Traits (probed by the driver on the tree under test, so that Impl keeps   *)
+(* describing the code after a repair; Spec never looks at them):          *)
+(*   registry_autoinsert  isotherm_to_db decides auto-insert by the lists  *)
+(*   iso_type_leak        isotherms_from_db hands column iso_type on       *)
+(*   real_affinity        ints / numeric text come back as floats          *)
+(*   type_overwrite_noop  *_type_to_db(overwrite) of an absent key = ok    *)
+(*   no_ipt_table         table isotherm_properties_type is never created  *)
+AllTraits == {"registry_autoinsert", "iso_type_leak", "real_affinity", "type_overwrite_noop", "no_ipt_table"}
+Has(t) == t \in Traits
 RI(out, f, reg) == [out |-> out, f |-> f, reg |-> reg]
 
 Dec(n) == IF n > 0 THEN n - 1 ELSE 0
@@ -222,17 +232,18 @@ ImplTyTo(f, reg, fld, o) ==
       done == [f EXCEPT ![fld][o.k] = o.v]
   IN IF ~o.ow THEN (IF cur = Absent THEN RI("ok", done, reg) ELSE RI("refused", f, reg))
      \* _upload_one_all_columns: UPDATE ... WHERE type = :type matches no row and reports success
-     ELSE IF cur # Absent THEN RI("ok", done, reg) ELSE RI("ok", f, reg)
+     ELSE IF cur # Absent THEN RI("ok", done, reg)
+     ELSE IF Has("type_overwrite_noop") THEN RI("ok", f, reg) ELSE RI("refused", f, reg)
 
 \* isotherm_to_db: auto-insert is decided by membership in the session registries
 ImplIsoTo(f, reg, o) ==
   LET i == o.k   m == IsoMat[i]   a == IsoAds[i]
-      insM == o.am /\ reg.mats[m] = 0
+      insM == o.am /\ (IF Has("registry_autoinsert") THEN reg.mats[m] = 0 ELSE f.mats[m] = Absent)
       failM == insM /\ f.mats[m] # Absent                        \* nested material_to_db: UNIQUE(name)
       f1 == IF insM /\ ~failM
             THEN [f EXCEPT !.mats[m] = IsoMatVer[i], !.mpt = AutoTypes(f.mpt, UsesM(IsoMatVer[i]))] ELSE f
       reg1 == IF insM /\ ~failM THEN [reg EXCEPT !.mats[m] = @ + 1] ELSE reg
-      insA == o.aa /\ reg.ads[a] = 0
+      insA == o.aa /\ (IF Has("registry_autoinsert") THEN reg.ads[a] = 0 ELSE f1.ads[a] = Absent)
       failA == insA /\ f1.ads[a] # Absent
       f2 == IF insA /\ ~failA
             THEN [f1 EXCEPT !.ads[a] = IsoAdsVer[i], !.apt = AutoTypes(f1.apt, UsesA(IsoAdsVer[i]))] ELSE f1
@@ -251,12 +262,25 @@ ImplDel(f, reg, fld, k, referenced, inRegistry) ==
   THEN RI("ok", [f EXCEPT ![fld][k] = Absent], IF inRegistry THEN [reg EXCEPT ![fld][k] = Dec(@)] ELSE reg)
   ELSE RI("refused", f, reg)
 
+\* isotherms_from_db passes the whole row of table `isotherms` (incl. iso_type) to the
+\* constructor; values of REAL affinity come back as floats
+Coerced(i) == Has("real_affinity") /\ IsoClass[i] = "coerce"
+RetrievedIdDiffers(i) == Has("iso_type_leak") \/ Coerced(i)
+ImplIsoToken(i, tok) ==
+  IF tok # Here THEN tok
+  ELSE IF Coerced(i) /\ Has("iso_type_leak") THEN "x:changed=coerced;extra=iso_type"
+  ELSE IF Coerced(i) THEN "x:changed=coerced"
+  ELSE IF Has("iso_type_leak") THEN "x:extra=iso_type"
+  ELSE Here
+
 ImplStep(f, reg, o) ==
   CASE o.op = "ads_to"  -> ImplItemTo(f, reg, "ads", "apt", UsesA(o.v), o)
     [] o.op = "mat_to"  -> ImplItemTo(f, reg, "mats", "mpt", UsesM(o.v), o)
     [] o.op \in {"apt_to", "mpt_to", "ity_to"} -> ImplTyTo(f, reg, FieldOf(o.op), o)
     \* sqlite_db_pragmas.py never creates table isotherm_properties_type: sqlite3.OperationalError
-    [] o.op \in {"ipt_to", "ipt_del", "ipt_from"} -> RI("error", f, reg)
+    [] o.op \in {"ipt_to", "ipt_del", "ipt_from"} /\ Has("no_ipt_table") -> RI("error", f, reg)
+    [] o.op = "ipt_to" -> ImplTyTo(f, reg, "ipt", o)
+    [] o.op = "ipt_del" -> ImplDel(f, reg, "ipt", o.k, FALSE, FALSE)
     \* a new session starts with the registries as loaded from the internal database: none of our items
     [] o.op = "session" -> RI("ok", f, [mats |-> [m \in DOMAIN reg.mats |-> 0], ads |-> [a \in DOMAIN reg.ads |-> 0]])
     [] o.op = "iso_to"  -> ImplIsoTo(f, reg, o)
@@ -266,15 +290,10 @@ ImplStep(f, reg, o) ==
     [] o.op = "mpt_del" -> ImplDel(f, reg, "mpt", o.k, MptReferenced(f, o.k), FALSE)
     [] o.op = "ity_del" -> ImplDel(f, reg, "ity", o.k, ItyReferenced(f, o.k), FALSE)
     \* deleting through a retrieved object: its id is computed from a dictionary that now holds iso_type
-    [] o.op = "iso_del" -> IF o.by = "retrieved" /\ f.isos[o.k] # Absent THEN RI("refused", f, reg)
+    [] o.op = "iso_del" -> IF o.by = "retrieved" /\ f.isos[o.k] # Absent /\ RetrievedIdDiffers(o.k) THEN RI("refused", f, reg)
                            ELSE ImplDel(f, reg, "isos", o.k, FALSE, FALSE)
     [] OTHER -> RI("ok", f, reg)
 
-\* isotherms_from_db passes the whole row of table `isotherms` (incl. iso_type) to the
-\* constructor; values of REAL affinity come back as floats
-ImplIsoToken(i, tok) ==
-  IF tok # Here THEN tok
-  ELSE IF IsoClass[i] = "coerce" THEN "x:changed=coerced;extra=iso_type" ELSE "x:extra=iso_type"
 ImplRetrieve(f, o) ==
   IF o.op = "iso_from"
   THEN [i \in Isos |-> IF IsoSelected(i, o) THEN ImplIsoToken(i, f.isos[i]) ELSE Absent]
@@ -292,8 +311,9 @@ DivergenceClass(f, reg, o) ==
   IN IF Conforms(f, reg, o) THEN "conforms"
      ELSE IF o.op \in {"ipt_to", "ipt_del", "ipt_from"} THEN "isotherm_property_type:table_never_created"
      ELSE IF IsRetrieval(o) THEN
-            (IF \E i \in Isos : IsoSelected(i, o) /\ f.isos[i] = Here /\ IsoClass[i] = "coerce"
-             THEN "iso_from:coerced_values+iso_type_leak" ELSE "iso_from:iso_type_leak")
+            (IF \E i \in Isos : IsoSelected(i, o) /\ f.isos[i] = Here /\ Coerced(i)
+             THEN (IF Has("iso_type_leak") THEN "iso_from:coerced_values+iso_type_leak" ELSE "iso_from:coerced_values")
+             ELSE "iso_from:iso_type_leak")
      ELSE IF o.op = "iso_to" /\ r.out = "refused" /\ specOK THEN
             (LET m == IsoMat[o.k]   a == IsoAds[o.k]
              IN IF (o.am /\ reg.mats[m] = 0 /\ f.mats[m] # Absent) \/ (o.aa /\ reg.ads[a] = 0 /\ f.ads[a] # Absent)
